@@ -10,6 +10,9 @@ package c20
 
 import (
 	"bufio"
+	"crypto/ecdsa"
+	"crypto/elliptic"
+	"crypto/rand"
 	"crypto/sha256"
 	"fmt"
 	"os"
@@ -52,6 +55,113 @@ func dataWire(name enc.Name, variant int) []byte {
 func digestOf(wire []byte) []byte {
 	h := sha256.Sum256(wire)
 	return h[:]
+}
+
+// lpWrap puts a packet into an NDNLPv2 LpPacket: mode 1 = Fragment only, 2 = PitToken + Fragment
+// (nack adds the Nack header); mode 0 returns the bare packet.
+func lpWrap(w []byte, mode int, nack bool) []byte {
+	if mode == 0 && !nack {
+		return w
+	}
+	lp := &spec.LpPacket{Fragment: enc.Wire{w}}
+	if mode == 2 {
+		lp.PitToken = []byte{0xca, 0xfe, 0x00, 0x01}
+	}
+	if nack {
+		lp.Nack = &spec.NetworkNack{Reason: spec.NackReasonNoRoute}
+	}
+	pkt := &spec.Packet{LpPacket: lp}
+	e := spec.PacketEncoder{}
+	e.Init(pkt)
+	return e.Encode(pkt).Join()
+}
+
+func wrapMode(tok string) int {
+	switch tok {
+	case "w1":
+		return 1
+	case "w2":
+		return 2
+	}
+	return 0
+}
+
+// shortSigner reserves 34 bytes for the signature value and emits 32: a deterministic stand-in for
+// signers whose signature is shorter than their estimate (the stock ECDSA signer: estimate 72,
+// DER signature 70..72 bytes), which makes MakeInterest shrink the packet after signing.
+type shortSigner struct{ keyName enc.Name }
+
+func (s shortSigner) SigInfo() (*ndn.SigConfig, error) {
+	return &ndn.SigConfig{Type: ndn.SignatureHmacWithSha256, KeyName: s.keyName}, nil
+}
+func (shortSigner) EstimateSize() uint { return 34 }
+func (shortSigner) ComputeSigValue(covered enc.Wire) ([]byte, error) {
+	h := sha256.New()
+	for _, b := range covered {
+		h.Write(b)
+	}
+	return h.Sum(nil), nil
+}
+
+var eccKey = func() *ecdsa.PrivateKey {
+	k, err := ecdsa.GenerateKey(elliptic.P256(), rand.Reader)
+	if err != nil {
+		panic(err)
+	}
+	return k
+}()
+
+var keyName = enc.Name{comp("k"), comp("KEY"), comp("1")}
+
+// interestSigner returns the signer named in an expressp op (nil = unsigned).
+func interestSigner(kind string, timer ndn.Timer) ndn.Signer {
+	switch kind {
+	case "sha":
+		return sec.NewSha256IntSigner(timer)
+	case "ecc":
+		return sec.NewEccSigner(false, true, 0, eccKey, keyName)
+	case "short":
+		return shortSigner{keyName}
+	}
+	return nil
+}
+
+// paramInterest builds an Interest with plen bytes of ApplicationParameters through the real MakeInterest.
+func paramInterest(name enc.Name, cfg *ndn.InterestConfig, plen int, kind string, timer ndn.Timer) (*ndn.EncodedInterest, error) {
+	return spec.Spec{}.MakeInterest(name, cfg, enc.Wire{make([]byte, plen)}, interestSigner(kind, timer))
+}
+
+// boundaryParamLen chooses a parameters length that puts the ESTIMATED Interest value length next to 253
+// (where the Length field grows from 1 to 3 bytes and a shorter-than-estimated signature makes
+// MakeInterest shrink it again), off by -3..+3.
+func boundaryParamLen(r *common.Rand, name enc.Name, kind string) int {
+	timer := basic.NewTimer()
+	best := 0
+	for try := 0; try < 6; try++ { // ECDSA signatures vary by up to 2 bytes: take the longest seen
+		it, err := paramInterest(name, &ndn.InterestConfig{}, 100, kind, timer)
+		if err != nil {
+			return 100
+		}
+		w := it.Wire.Join()
+		v := len(w) - 2 // value length at plen=100 (1-byte Length: all of these are < 253)
+		if len(w) >= 256 {
+			v = len(w) - 4
+		}
+		if v > best {
+			best = v
+		}
+		if kind != "ecc" {
+			break
+		}
+	}
+	if kind == "short" {
+		best += 2 // the estimate is 2 above what is finally written
+	}
+	plen := 100 + (253 - best) + r.Range(-3, 3)
+	if plen < 1 {
+		plen = 1
+	}
+	return plen
 }
 
 func comp(s string) enc.Component {
@@ -136,6 +246,7 @@ func genHistory(g *common.Gen, r *common.Rand) {
 	var pend []gPend
 	var attached []enc.Name
 	var rxs []gRx
+	var plabels []string
 	var maxDeadline int64
 	nExpr, nRx, nHid := 0, 0, 0
 
@@ -204,6 +315,42 @@ func genHistory(g *common.Gen, r *common.Rand) {
 			}
 		}
 		pend = live
+		// Interests with ApplicationParameters (final name known only after the real MakeInterest has
+		// run: later ops refer to them by label) and the Data / Nack that answer them
+		if len(plabels) > 0 && r.Chance(1, 9) {
+			l := common.Pick(r, plabels)
+			if r.Chance(1, 5) {
+				g.Op("nackfor %s w%d @%d", l, 1+r.Intn(2), t)
+				g.Stat("op-nackfor")
+			} else {
+				g.Op("datafor %s %d w%d @%d", l, r.Intn(2), pickWrap(r), t)
+				g.Stat("op-datafor")
+			}
+			continue
+		}
+		if r.Chance(1, 14) {
+			base := uni(1, 2)
+			kind := common.Pick(r, []string{"none", "sha", "ecc", "ecc", "short", "short"})
+			plen := r.Range(1, 60)
+			if kind == "ecc" || kind == "short" || r.Chance(1, 2) {
+				plen = boundaryParamLen(r, base, kind)
+			}
+			life := int64(r.Range(20000, 400000))
+			for !dummyClock && fires[t+life+marginUs] {
+				life++
+			}
+			label := "i" + strconv.Itoa(nExpr)
+			nExpr++
+			g.Op("expressp %s %s %d %d %d %s @%d", label, common.NameText(base), b2i(r.Chance(1, 4)), life, plen, kind, t)
+			g.Stat("op-expressp")
+			g.Stat("expressp-" + kind)
+			fires[t+life+marginUs] = true
+			plabels = append(plabels, label)
+			if t+life > maxDeadline {
+				maxDeadline = t + life
+			}
+			continue
+		}
 		switch x := r.Intn(100); {
 		case x < 36: // express
 			var final, node enc.Name
@@ -302,7 +449,7 @@ func genHistory(g *common.Gen, r *common.Rand) {
 				name = uni(1, 1)
 			}
 			v := r.Intn(2)
-			g.Op("data %s %s %d @%d", common.NameText(name), common.Hex(digestOf(dataWire(name, v))), v, t)
+			g.Op("data %s %s %d w%d @%d", common.NameText(name), common.Hex(digestOf(dataWire(name, v))), v, pickWrap(r), t)
 			g.Stat("op-data")
 			g.Stat("data-" + kind)
 		case x < 70: // nack
@@ -318,7 +465,7 @@ func genHistory(g *common.Gen, r *common.Rand) {
 			if len(name) == 0 {
 				name = uni(1, 1)
 			}
-			g.Op("nack %s @%d", common.NameText(name), t)
+			g.Op("nack %s w%d @%d", common.NameText(name), 1+r.Intn(2), t)
 			g.Stat("op-nack")
 		case x < 78: // attach
 			p := uni(0, 2)
@@ -408,6 +555,17 @@ func genHistory(g *common.Gen, r *common.Rand) {
 	g.StatN("ops", nops)
 }
 
+// pickWrap: bare packet (60 %), LpPacket with only a Fragment, LpPacket with PitToken + Fragment
+func pickWrap(r *common.Rand) int {
+	switch x := r.Intn(10); {
+	case x < 6:
+		return 0
+	case x < 8:
+		return 1
+	}
+	return 2
+}
+
 func b2i(b bool) int {
 	if b {
 		return 1
@@ -424,6 +582,11 @@ type event struct {
 	at    int64
 }
 
+type sentRec struct {
+	name enc.Name
+	wire []byte
+}
+
 type rxRec struct {
 	name  enc.Name
 	reply ndn.WireReplyFunc
@@ -437,6 +600,8 @@ type hist struct {
 	mu     sync.Mutex
 	events []event
 	rx     map[string]rxRec
+	sent   map[string]sentRec // Interests expressed with parameters: what went out on the wire
+	timer  ndn.Timer
 	// set by a handler during FeedPacket
 	lastHid   int
 	lastArgs  *ndn.InterestHandlerArgs
@@ -472,7 +637,7 @@ func (h *hist) drainFace() int {
 }
 
 func newHist(dummyClock bool) *hist {
-	h := &hist{start: time.Now(), rx: map[string]rxRec{}}
+	h := &hist{start: time.Now(), rx: map[string]rxRec{}, sent: map[string]sentRec{}}
 	h.face = dummy.NewDummyFace()
 	passAll := func(enc.Name, enc.Wire, ndn.Signature) bool { return true }
 	var timer ndn.Timer = basic.NewTimer()
@@ -481,6 +646,7 @@ func newHist(dummyClock bool) *hist {
 		h.start = h.dt.Now()
 		timer = h.dt
 	}
+	h.timer = timer
 	h.eng = basic.NewEngine(h.face, timer, sec.NewSha256IntSigner(timer), passAll)
 	if err := h.eng.Start(); err != nil {
 		panic("harness: engine start: " + err.Error())
@@ -530,6 +696,27 @@ func labelNum(l string) int {
 	return n
 }
 
+// callback records the result given to the Express callback of Interest `label`.
+func (h *hist) callback(label string) ndn.ExpressCallbackFunc {
+	return func(a ndn.ExpressCallbackArgs) {
+		e := event{label: label, at: h.now()}
+		switch a.Result {
+		case ndn.InterestResultData:
+			e.kind = "D"
+			e.name = common.NameText(a.Data.Name())
+		case ndn.InterestResultNack:
+			e.kind = "N"
+		case ndn.InterestResultTimeout:
+			e.kind = "T"
+		default:
+			e.kind = "X" + strconv.Itoa(int(a.Result))
+		}
+		h.mu.Lock()
+		h.events = append(h.events, e)
+		h.mu.Unlock()
+	}
+}
+
 // execOp runs one op of a history inside the bubble.
 func (h *hist) execOp(op string) string {
 	f := common.Fields(op)
@@ -569,23 +756,7 @@ func (h *hist) execOp(op string) string {
 				return "pre=" + pre + " res=make-err cb=-"
 			}
 		}
-		err := h.eng.Express(it, func(a ndn.ExpressCallbackArgs) {
-			e := event{label: label, at: h.now()}
-			switch a.Result {
-			case ndn.InterestResultData:
-				e.kind = "D"
-				e.name = common.NameText(a.Data.Name())
-			case ndn.InterestResultNack:
-				e.kind = "N"
-			case ndn.InterestResultTimeout:
-				e.kind = "T"
-			default:
-				e.kind = "X" + strconv.Itoa(int(a.Result))
-			}
-			h.mu.Lock()
-			h.events = append(h.events, e)
-			h.mu.Unlock()
-		})
+		err := h.eng.Express(it, h.callback(label))
 		tx := h.drainFace()
 		switch {
 		case err == nil && tx == 1:
@@ -601,10 +772,76 @@ func (h *hist) execOp(op string) string {
 		if common.Hex(digestOf(w)) != f[2] {
 			return "pre=" + pre + " res=bad-digest cb=-"
 		}
-		if err := h.face.FeedPacket(w); err != nil {
+		mode := 0
+		if len(f) > 4 {
+			mode = wrapMode(f[4])
+		}
+		if err := h.face.FeedPacket(lpWrap(w, mode, false)); err != nil {
 			res = "feed-err"
 		} else {
 			res = "ok"
+		}
+	case "expressp":
+		// Interest with ApplicationParameters, built and signed by the real MakeInterest; reports the
+		// name that is ON THE WIRE (decoded from what the face sent)
+		label, name, cbp := f[1], common.ParseNameText(f[2]), f[3] == "1"
+		cfg := &ndn.InterestConfig{CanBePrefix: cbp}
+		if f[4] != "-" {
+			cfg.Lifetime = utils.IdPtr(time.Duration(common.Atoi(f[4])) * time.Microsecond)
+		}
+		it, err := paramInterest(name, cfg, common.Atoi(f[5]), f[6], h.timer)
+		if err != nil {
+			return "pre=" + pre + " res=make-err cb=-"
+		}
+		err = h.eng.Express(it, h.callback(label))
+		var sent []byte
+		tx := 0
+		for {
+			b, e := h.face.Consume()
+			if e != nil {
+				break
+			}
+			sent = b
+			tx++
+		}
+		if err != nil || tx != 1 {
+			res = "err-tx" + strconv.Itoa(tx)
+			break
+		}
+		pkt, _, perr := spec.ReadPacket(enc.NewBufferReader(sent))
+		if perr != nil || pkt.Interest == nil {
+			res = "sent-unparsable"
+			break
+		}
+		wname := pkt.Interest.Name().Clone()
+		h.sent[label] = sentRec{name: wname, wire: append([]byte{}, sent...)}
+		res = "ok:" + common.NameText(wname)
+	case "datafor":
+		x, ok := h.sent[f[1]]
+		if !ok {
+			res = "skip"
+			break
+		}
+		w := dataWire(x.name, common.Atoi(f[2]))
+		if err := h.face.FeedPacket(lpWrap(w, wrapMode(f[3]), false)); err != nil {
+			res = "feed-err"
+		} else {
+			res = "ok:" + common.NameText(x.name) + ":" + common.Hex(digestOf(w))
+		}
+	case "nackfor":
+		x, ok := h.sent[f[1]]
+		if !ok {
+			res = "skip"
+			break
+		}
+		mode := wrapMode(f[2])
+		if mode == 0 {
+			mode = 1
+		}
+		if err := h.face.FeedPacket(lpWrap(x.wire, mode, true)); err != nil {
+			res = "feed-err"
+		} else {
+			res = "ok:" + common.NameText(x.name)
 		}
 	case "nack":
 		name := common.ParseNameText(f[1])
@@ -612,10 +849,11 @@ func (h *hist) execOp(op string) string {
 		if err != nil {
 			return "pre=" + pre + " res=make-err cb=-"
 		}
-		pkt := &spec.Packet{LpPacket: &spec.LpPacket{Nack: &spec.NetworkNack{Reason: spec.NackReasonNoRoute}, Fragment: it.Wire}}
-		e := spec.PacketEncoder{}
-		e.Init(pkt)
-		if err := h.face.FeedPacket(e.Encode(pkt).Join()); err != nil {
+		mode := 1
+		if len(f) > 2 {
+			mode = wrapMode(f[2])
+		}
+		if err := h.face.FeedPacket(lpWrap(it.Wire.Join(), mode, true)); err != nil {
 			res = "feed-err"
 		} else {
 			res = "ok"
